@@ -459,9 +459,50 @@ class FlowCheck(core.Check):
                 ok1, out1 = core.coq_check_text('Tie_flow_%s_%s' % (self.pid, name), '\n'.join(one) + '\n')
                 obs.append(core.Obligation('tie_%s: skeleton of %s regenerated from %s equals M_pipeline.sk_%s'
                                            % (name, q, rel, name), ok1, '' if ok1 else out1))
+        obs += self.regenerated_theorems(text)
         self.notes.append('translator: %d statements mapped to the generic may-raise action Other'
                           % sum(len(v) for v in unknown.values()))
         return obs
+
+    GEN_THEOREMS = {
+        'C01': ['gthm_no_escape', 'gthm_one_response', 'gthm_unexpected_5xx', 'gthm_no_leak'],
+        'C09': ['gthm_end_resource_once', 'gthm_hook_bounds', 'gthm_hook_tables', 'gthm_end_request_not_in_run',
+                'gthm_end_request_at_most_once'],
+    }
+
+    def regenerated_theorems(self, text):
+        """the property theorems re-established, by the kernel, for the skeletons regenerated from /repo: the
+        regenerated program must pass the boolean check flow_checks (symbolic execution of a whole server
+        session, counting analyses, close() idiom) whose soundness is proved once and for all in P_flow_gen.v"""
+        names = [n for n, _, _ in pyflow.FUNCTIONS]
+        fn_of = {'request_run': 'F_request_run', 'respond': 'F_respond', 'do_respond': 'F_do_respond',
+                 'handle_error': 'F_handle_error', 'request_close': 'F_request_close',
+                 'get_serving': 'F_get_serving', 'release_serving': 'F_release_serving',
+                 'appresponse_init': 'F_appresponse_init', 'appresponse_close': 'F_appresponse_close',
+                 'appresponse_close_init': 'F_appresponse_close_init', 'appresponse_run': 'F_appresponse_run',
+                 'redirector_call': 'F_redirector_call', 'trapped_init': 'F_trapped_init',
+                 'trapped_next': 'F_trapped_next', 'trapped_close': 'F_trapped_close'}
+        arms = ['  | %s => G_%s' % (fn_of[n], n) for n in names if n in fn_of]
+        arms += ['  | F_ir_request_close => G_request_close', '  | F_trap_init | F_trap_next => G_trap']
+        lines = [text, 'From CV Require Import Model.M_pipeline Model.M_aflow Proof.P_flow_thm Proof.P_flow_gen.',
+                 'Definition Gprog (f : fname) : stmt :=\n  match f with\n%s\n  end.' % '\n'.join(arms),
+                 'Lemma gen_flow_checks : flow_checks Gprog pparam sess_fuel = true.',
+                 'Proof. vm_cast_no_check (eq_refl true). Qed.']
+        for t in self.GEN_THEOREMS[self.pid]:
+            # (a theorem of the section that needs no check keeps only the parameters it uses)
+            lines.append('Definition gen_%s := ltac:(first [exact (%s Gprog pparam sess_fuel gen_flow_checks) '
+                         '| exact (%s Gprog pparam)]).' % (t, t, t))
+            lines.append('Print Assumptions gen_%s.' % t)
+        ok, out = core.coq_check_text('Gen_flow_%s' % self.pid, '\n'.join(lines) + '\n', timeout=900)
+        closed = out.count('Closed under the global context')
+        n = len(self.GEN_THEOREMS[self.pid])
+        good = ok and closed == n
+        res = [core.Obligation('gen_flow_checks: the skeletons regenerated from %s pass flow_checks (kernel, vm)' % core.REPO,
+                               good, '' if good else out)]
+        for t in self.GEN_THEOREMS[self.pid]:
+            res.append(core.Obligation('gen_%s: theorem re-established for the regenerated skeletons' % t, good,
+                                       '' if good else 'see gen_flow_checks'))
+        return res
 
     # ---- scenarios ------------------------------------------------------------------------------
     def gen_scenario(self, rng, nfaults=None, hooks=True):
